@@ -14,7 +14,11 @@ pub mod serde_json {
 }
 
 // opaque stand-ins for the error type, the crate's Result alias and schemars' Metadata
-pub struct Error;
+// the crate's error type reduced to the one variant the extracted code constructs
+pub enum Error {
+    InvalidTypeId,
+    Other,
+}
 pub type Result<T> = std::result::Result<T, Error>;
 pub struct Metadata {
     pub default: Option<serde_json::Value>,
@@ -45,7 +49,6 @@ pub struct ExSchema(Schema);
 pub struct ExValue(serde_json::Value);
 
 #[verifier::external_type_specification]
-#[verifier::external_body]
 pub struct ExError(Error);
 
 #[verifier::external_type_specification]
